@@ -327,16 +327,25 @@ def history_for(lines, idx):
 def evaluate(lines):
     """run ops on both sides -> list of (impl_obs, model_obs, iverdicts, mverdicts)"""
     obs = run_exec(lines)
-    ans = run_driver(lines, obs)
+    # `lensweep` is an executor-only bulk op (C17 thorough): the driver is given a no-op instead
+    ans = run_driver([("conv cmd 00" if l.startswith("lensweep ") else l) for l in lines],
+                     [(None if l.startswith("lensweep ") else o) for l, o in zip(lines, obs)])
     out = []
+    _addr.clear()
     for l, o, a in zip(lines, obs, ans):
         m, iv, mv = parse_answer(a)
         k = l.split()[0] if l.split() else ""
-        if k in ("view", "conv"):
-            p = "C18" if k == "view" else "C19"
+        if k == "ctx":
+            _addr[l.split()[1]] = int(l.split()[2], 16)
+        if k == "lensweep":
+            t = o.split()
+            good = len(t) == 4 and t[0] == "ok" and t[1] == "65536" and t[2] == "0"
+            out.append((o, o, {"C17": "ok" if good else "fail:closed-form-mismatch at " + (t[3] if len(t) > 3 else "?")}, {"C17": "ok"}))
+            continue
+        if k in ("view", "conv", "new", "hdr"):
+            p = "C19" if k == "conv" else "C18"
             iv = {p: py_verdict(p, l, o)}
             mv = {p: py_verdict(p, l, m)}
-            mv = {q: v for q, v in mv.items() if not v.startswith("ok")}
         out.append((o, m, iv, mv))
     return out
 
@@ -668,7 +677,7 @@ def check_property(prop, tier, seed, max_search=20000):
         kind = l.split()[0]
         if kind == "ctx":
             continue
-        relevant = (prop in iv) or (prop in mv) or kind in ("view", "conv") or iv.get("*") == "unparsed"
+        relevant = (prop in iv) or (prop in mv) or kind in ("view", "conv", "new", "hdr") or iv.get("*") == "unparsed"
         if kind in ("seteid", "setuuid") and prop != "C13":
             relevant = False
         if not relevant:
@@ -853,6 +862,8 @@ def replay(path):
 # ----------------------------------------------------------------------------- C18 / C19 judged here
 # (finite closed forms: the specification is the layout table / the code-point tables)
 
+_addr = {}
+TYPE_VALUE = {"control": 0x00, "spdm": 0x05, "secured": 0x06, "pci": 0x7E, "iana": 0x7F, "invalid": 0xFF}
 CMD_CODES = set(range(0x00, 0x15))
 MSG_CODES = {0x00, 0x05, 0x06, 0x7E, 0x7F}
 
@@ -902,6 +913,32 @@ def py_verdict(prop, line, o):
                 b = int(t[2], 16)
                 want = (b & 0x80) == 0 and (b & 0x7F) in MSG_CODES
                 return "ok" if o == ("ok" if want else "err") else "fail:body-validator"
-    except (ValueError, IndexError):
+        if prop == "C18" and t[0] == "new":
+            if t[1] == "ctrl":
+                want = bytes([(int(t[2]) << 7) | (int(t[3]) << 6) | (int(t[4], 16) & 0x1F), int(t[5], 16)]).hex()
+            elif t[1] == "transport":
+                want = bytes([int(t[2], 16) & 0x0F, 0, 0, 0]).hex()
+            elif t[1] == "body":
+                want = "panic explicit base_packet.rs" if t[2] == "1" else "%02x" % (TYPE_VALUE[t[3]] & 0x7F)
+            elif t[1] == "routing":
+                want = bytes([int(t[2], 16) & 0x0F, int(t[3], 16), int(t[4], 16), int(t[5], 16)]).hex()
+            elif t[1] == "pci":
+                want = (int(t[2], 16) & 0xFFFF).to_bytes(2, "big").hex()
+            elif t[1] == "iana":
+                want = (int(t[2], 16) & 0xFFFFFFFF).to_bytes(4, "big").hex()
+            else:
+                return "na"
+            return "ok" if o == want else "fail:constructor-layout"
+        if prop == "C18" and t[0] == "hdr":
+            a = _addr.get(t[2])
+            d = int(t[3], 16)
+            if a is None:
+                return "na"
+            if t[1] == "smbus":
+                want = bytes([((d & 0x7F) << 1) & 0xFF, 0x0F, 0, ((a & 0x7F) << 1) | 1]).hex()
+            else:
+                want = bytes([0x01, d, a, 0xC8]).hex()
+            return "ok" if o == want else "fail:header-generator"
+    except (ValueError, IndexError, KeyError):
         return "fail:unparsed-observation"
     return "na"
